@@ -36,12 +36,14 @@ def main():
         sh("git checkout -- . && git clean -fdq", REPO)
         sh("rm -rf %s/.work/* %s/replays" % (ROOT, ROOT))
         verdict = "CAUGHT" if all(v[0] == 1 for v in res.values()) else "MISSED"
+        if verdict == "MISSED" and meta.get("expected_verdict") == "MISSED":
+            verdict = "MISSED (documented limit, see DESIGN.md)"
         rows.append((name, verdict, " ".join("%s rc=%d %ds" % (k, v[0], v[1]) for k, v in res.items())))
         print("%-12s %-7s %s" % rows[-1], flush=True)
     with open(os.path.join(ROOT, "selftest", "SEEDED-%s.md" % tier), "w") as f:
         f.write("# Seeded changes (independent sub-agents) against the %s tier\n\n| change | verdict | detail |\n|---|---|---|\n" % tier)
         for r in rows: f.write("| %s | %s | %s |\n" % r)
-    print("%d seeded changes, %d not caught" % (len(rows), len([r for r in rows if r[1] != "CAUGHT"])))
+    print("%d seeded changes, %d not caught" % (len(rows), len([r for r in rows if not r[1].startswith("CAUGHT")])))
 
 if __name__ == "__main__":
     main()
